@@ -21,6 +21,7 @@ def swarm(rng, faults):
                 "enumerate": rng.random() < 0.2, "compression": rng.choice([zipfile.ZIP_DEFLATED, zipfile.ZIP_STORED])})
     # a reference value whose pickling / unpickling fails on command (the pickling operation as point of failure)
     cfg["bomb"] = bool(faults) and not cfg["enumerate"] and rng.random() < 0.4
+    cfg["frames"] = rng.random() < 0.4
     return cfg
 
 
@@ -72,6 +73,13 @@ class Session:
         if cfg.get("bomb"):
             sps = [""] + [x.path() for x in m.all_spaces()]
             extra.append({"op": "set_ref", "space": rng.choice(sps), "name": "bb", "value": {"t": "bomb", "v": rng.randrange(1, 9)}})
+        if cfg.get("frames"):
+            # values saved through PandasData specs (files of their own inside the saved model); a failed load must not
+            # leave their IOs behind
+            sps = [""] + [x.path() for x in m.all_spaces()]
+            for i in range(rng.choice([1, 1, 2])):
+                extra.append({"op": "set_ref", "space": rng.choice(sps), "name": "pd%d" % (i + 1),
+                              "value": {"t": "frame", "v": [rng.randrange(100), 7]}, "pandas_path": "files/pd%d.csv" % (i + 1)})
         for op in extra:
             mach.do(op)
         # a query set, some of it inside ItemSpaces, and ItemSpace inputs
@@ -439,6 +447,7 @@ def run_c14_steps(ctx, ses, plan_steps):
             raise Violation("C14/temporary-files-left-behind/" + what, {"left": res[:5]})
         if mx.core.mxsys.serializing is not None or mx.core.mxsys.iomanager.serializing:
             raise Violation("C14/serializing-flag-left-set/" + what, {})
+        io_residue(what)
 
     models0 = None
     for st in plan_steps:
@@ -518,6 +527,7 @@ def run_c14_steps(ctx, ses, plan_steps):
                     raise Violation("C14/half-loaded-model-left-registered", {"before": models0, "after": sorted(mx.get_models())})
                 if mx.core.mxsys.serializing is not None:
                     raise Violation("C14/serializing-flag-left-set/load-failed", {})
+                io_residue("load-failed")
                 usable(ctx, ses, m)
             else:
                 m2.close()
@@ -539,6 +549,18 @@ def run_c14_steps(ctx, ses, plan_steps):
             ctx.count("restarts", 1, "reach")
             continue
     ctx.nsteps = len(plan_steps)
+
+
+def io_residue(what):
+    """No IO of a model that is not open (any more) stays in the session-wide IO manager."""
+    ios = getattr(getattr(mx.core.mxsys, "iomanager", None), "ios", None)
+    if not isinstance(ios, dict):
+        return
+    open_models = list(mx.get_models().values())
+    for key in list(ios):
+        grp = key[0] if isinstance(key, tuple) and key else None
+        if grp is not None and not any(grp is m for m in open_models):
+            raise Violation("C14/io-of-a-closed-model-left-registered/" + what, {"model": getattr(grp, "name", "?"), "path": str(key[1])})
 
 
 def strip_gen(d):
